@@ -301,8 +301,9 @@ class Conc(object):
             return " " if self.width else pick(rng, SPACE)
         if cls == "punct":
             if side == "l" and k == "ip6":
-                # the look-behind of the IPv6 pattern contains the character range \\-a, i.e. \\ ] ^ _ ` a: an address
-                # after one of these is recognised from its second character on (family v6lb, a recorded finding)
+                # family v6lb keeps ] ^ ` apart: until /repo 32aeef7 the look-behind of the IPv6 pattern contained the
+                # character range \\-a (\\ ] ^ _ ` a) and an address after one of these was recognised from its second
+                # character on (D24, fixed); the family stays so that the defect is reported again if it returns
                 return pick(rng, list("]^`")) if self.cf["fam"] == "v6lb" else pick(rng, [c for c in PUNCT if c not in "]^`"])
             if side == "l":
                 return pick(rng, PUNCT)
